@@ -268,6 +268,24 @@ def _mk_mr(shape, k, letters, mode, m, budget=240):
                      bounds=f"kdtree {mode} mode with max_returns={m}, lengths {shape}, letters {letters}, max_edits={k}")
 
 
+_LONG = {}
+
+
+def _probe_long(compression, mode):
+    def run():
+        import pyrepseq
+        seqs = ["A" * 255, "A" * 256, "AC" * 128, "AC" * 127 + "AA", "A" * 254 + "C", "L" * 150 + "A" * 150, "L" * 150 + "A" * 149 + "V", "CASSLGQYF"]
+        ham = mode == "hamming"
+        if mode not in _LONG:
+            _LONG[mode] = hc.want_triplets(seqs, seqs, hc.ham if ham else hc.lev, 1, True)
+        kw = dict(custom_distance="hamming") if ham else {}
+        got = pyrepseq.kdtree(list(seqs), max_edits=1, compression=compression, **kw)
+        ok, detail = hc.compare_triplets(got, _LONG[mode])
+        return ok, (f"[long-sequence probe] kdtree(max_edits=1, compression={compression}, {kw}) on sequences of lengths {[len(x) for x in seqs]} "
+                    f"(merged composition bins hold 255 / 256 residues): {detail}")
+    return run
+
+
 def _probe_pool(n_cpu, compression, **kw):
     def run():
         import pyrepseq
@@ -318,6 +336,10 @@ def conditions(tier):
         for mode in ("default", "hamming", "custom"):
             out.append(_mk_mr((2, 2, 2), 2, "AY", mode, 2, budget=2400))
             out.append(_mk_mr((2, 2, 1, 1), 2, "AY", mode, 1, budget=2400))
+    for comp, mode in [(1, "default"), (10, "default"), (20, "default"), (25, "default"), (10, "hamming"), (20, "hamming")]:
+        out.append(hc.probe_condition(f"C11/probe/kdtree/long-sequences/compression={comp}/{mode}",
+                                      f"kdtree, max_edits=1, compression={comp}, {mode} mode, eight sequences of length 9-300 whose (merged) composition bins hold 254-256 "
+                                      "residues: exact neighbour set against brute force", _probe_long(comp, mode)))
     for n_cpu, comp in [(3, 1), (4, 5), (16, 20)]:
         out.append(hc.probe_condition(f"C11/probe/kdtree/n_cpu={n_cpu}/compression={comp}/6000-sequences",
                                       f"kdtree with the real multiprocessing.Pool, n_cpu={n_cpu}, compression={comp}, 6 005 sequences with five planted pairs: exact triplet set",
